@@ -26,7 +26,8 @@ def fold_constants(left: str, operator: str, right: str) -> str | None:
     :param left: Content of the left constant
     :param operator: One of OPERATOR_STRINGS
     :param right: Content of the right constant
-    :return: Content of the resulting constant, None if there is no result (division by zero)
+    :return: Content of the resulting constant, None if there is no result
+        (division by zero, a result that is not a finite real number, a constant that is not a number)
     """
     try:
         if not (is_number(left) and is_number(right)) or (
@@ -47,7 +48,7 @@ def fold_constants(left: str, operator: str, right: str) -> str | None:
             number = pow(left_int, right_int, 2**32)
         else:
             raise ValueError(f"{operator} is not a known operator")
-    except (ZeroDivisionError, OverflowError):
+    except (ZeroDivisionError, OverflowError, TypeError, SyntaxError):
         return None
     return str((number + 2**31) % 2**32 - 2**31)
 
